@@ -20,6 +20,7 @@ from . import fsmodel as FSM, boundary
 
 OU = "pyxel/outputs/utils.py"
 BOUNDED = {
+    r'^save\.failure': 'five request lists that fail part-way or meet an existing file',
     r'^save ': 'request lists of 1..3 file names (one bucket requested twice, non-adjacent)',
     r'^save\.method': 'requests of 1..3 buckets with 1..3 formats each (an image format before lossless ones included)',
     r'^names build\.names': 'a save configuration of two buckets and three formats',
